@@ -256,3 +256,148 @@ _reg_dsu = register
 def register(R):  # noqa: F811
     _reg_dsu(R)
     register_normalizer(R)
+
+
+# ===========================================================================
+# checker.py: is_bifurcate
+def _dview(d):
+    """(dom, val, lens) of a dict of int lists, concrete-empty or symbolic."""
+    I = z3.IntSort()
+    if d.items is not None:
+        if d.items:
+            raise ValueError("concrete non-empty dict in a clause")
+        return z3.K(I, z3.BoolVal(False)), z3.K(I, z3.K(I, z3.IntVal(0))), z3.K(I, z3.IntVal(0))
+    return d.dom, d.val, d.lens
+
+
+def register_checker(R):
+    def setup(exclude_root):
+        def f(S):
+            n = S.int("n")
+            S.assume(n.z >= 0)
+            ids, pids = S.arr("int", n=n, name="ids"), S.arr("int", n=n, name="pids")
+            # ghost: nch(k, i) = number of rows j < i with pids[j] == k
+            nch = z3.Function("nch", z3.IntSort(), z3.IntSort(), z3.IntSort())
+            k, i = z3.Ints("k_nch i_nch")
+            S.assume(z3.ForAll([k], nch(k, 0) == 0))
+            S.assume(z3.ForAll([k, i], z3.Implies(i >= 0, nch(k, i + 1) == nch(k, i) + z3.If(z3.Select(pids.arr, i) == k, 1, 0)), patterns=[nch(k, i + 1)]))
+            S.assume(z3.ForAll([k, i], z3.Implies(i >= 0, nch(k, i) >= 0), patterns=[nch(k, i)]))
+            prow = z3.Function("prow", z3.IntSort(), z3.IntSort())  # ghost: row of a row's parent (Skolem function of `parents-exist`)
+            return dict(topology=(ids, pids), exclude_root=exclude_root, __ghost__={"nch": nch, "prow": prow})
+
+        return f
+
+    def T(v):
+        ids, pids = v["topology"]
+        return ids, pids, ids.nz()
+
+    def pre_distinct(E, v, o):
+        ids, pids, n = T(v)
+        a, b = z3.Ints(fresh_name("a") + " " + fresh_name("b"))
+        return z3.ForAll([a, b], z3.Implies(z3.And(0 <= a, a < b, b < n), ids.get(a).z != ids.get(b).z))
+
+    def pre_marker(E, v, o):
+        ids, pids, n = T(v)
+        a = z3.Int(fresh_name("a"))
+        return z3.ForAll([a], z3.Implies(z3.And(0 <= a, a < n), ids.get(a).z != -1))
+
+    def pre_parents(E, v, o):
+        ids, pids, n = T(v)
+        a = z3.Int(fresh_name("a"))
+        b = E.spec_extra["prow"](a)
+        return z3.ForAll([a], z3.Implies(z3.And(0 <= a, a < n, pids.get(a).z != -1), z3.And(0 <= b, b < n, ids.get(b).z == pids.get(a).z)))
+
+    def post(E, v, o):
+        ids, pids, n = T(v)
+        nch = E.spec_extra["nch"]
+        a = z3.Int(fresh_name("a"))
+        ex = v["exclude_root"]
+        ok = z3.ForAll([a], z3.Implies(z3.And(0 <= a, a < n), z3.Or(z3.And(z3.BoolVal(bool(ex)), pids.get(a).z == -1), nch(ids.get(a).z, n) <= 2)))
+        return to_z3(v["result"], "bool") == ok
+
+    # loop 0: children[k] lists, in row order, the ids of the rows whose parent id is k
+    # (ghost rrow(k, j) = the row behind the j-th entry of children[k])
+    rrow = z3.Function("rrow", z3.IntSort(), z3.IntSort(), z3.IntSort())
+
+    def inv0(which):
+        def f(E, v, o):
+            ids, pids, n = T(v)
+            nch = E.spec_extra["nch"]
+            dom, val, lens = _dview(v["children"])
+            i = to_z3(v["_k0"], "int")
+            k, j, a = z3.Int(fresh_name("k")), z3.Int(fresh_name("j")), z3.Int(fresh_name("a"))
+            pa = pids.get(a).z
+            if which == "sizes":
+                return z3.ForAll([k], z3.If(z3.Select(dom, k), z3.And(z3.Select(lens, k) == nch(k, i), nch(k, i) > 0), nch(k, i) == 0))
+            if which == "rows-listed":
+                return z3.ForAll([a], z3.Implies(z3.And(0 <= a, a < i), z3.And(z3.Select(dom, pa), nch(pa, a) < z3.Select(lens, pa), z3.Select(z3.Select(val, pa), nch(pa, a)) == ids.get(a).z)))
+            if which == "listed-are-rows":
+                r = rrow(k, j)
+                return z3.ForAll([k, j], z3.Implies(z3.And(z3.Select(dom, k), 0 <= j, j < z3.Select(lens, k)),
+                                                    z3.And(0 <= r, r < i, pids.get(r).z == k, ids.get(r).z == z3.Select(z3.Select(val, k), j))))
+
+        return f
+
+    def rrow_axiom(E, fr):
+        ids, pids = fr.vars["topology"]
+        nch = E.spec_extra["nch"]
+        a = z3.Int(fresh_name("a"))
+        pa = pids.get(a).z
+        # definitional: nch(k, .) is strictly increasing along the rows whose parent is k, so such a function exists
+        E.assume(z3.ForAll([a], z3.Implies(a >= 0, rrow(pa, nch(pa, a)) == a)))
+        E.assumptions.add("ghost definition: rrow(k, j) = the j-th row whose parent id is k")
+
+    # loop 1: no key enumerated so far has more than two children (unless it is an exempt root)
+    def inv1(E, v, o):
+        ids, pids, n = T(v)
+        nch = E.spec_extra["nch"]
+        d = v["children"]
+        if ("dictkeys", d.uid) not in E.ghost:  # entry: nothing enumerated yet
+            return True
+        ks, m, pos = E.ghost[("dictkeys", d.uid)]
+        dom, val, lens = _dview(d)
+        j, j2 = z3.Int(fresh_name("j")), z3.Int(fresh_name("i"))
+        ex = z3.BoolVal(bool(v["exclude_root"]))
+        kk = ks(j)
+        in_root = z3.Exists([j2], z3.And(j2 >= 0, j2 < z3.Select(lens, -1), z3.Select(z3.Select(val, -1), j2) == kk))
+        return z3.ForAll([j], z3.Implies(z3.And(0 <= j, j < to_z3(v["_k1"], "int"), kk != -1), z3.Or(nch(kk, n) <= 2, z3.And(ex, in_root))))
+
+    def post_hint(E, vars):
+        """proof steps for the `return False` exit: the overfull key is the id of a row (the parent row of its first listed child)"""
+        k = vars.get("k")
+        if not isinstance(k, Sym) or "children" not in vars:
+            return
+        ids, pids = vars["topology"]
+        n = ids.nz()
+        dom, val, lens = _dview(vars["children"])
+        nch, prow = E.spec_extra["nch"], E.spec_extra["prow"]
+        kz = k.z
+        r = rrow(kz, 0)
+        live = z3.And(z3.Select(dom, kz), z3.Select(lens, kz) > 0, kz != -1)
+        E.prove("is_bifurcate/step/first-listed-child-is-a-row", z3.Implies(live, z3.And(0 <= r, r < n, pids.get(r).z == kz)), "annotation")
+        b = prow(r)
+        E.prove("is_bifurcate/step/its-parent-row-carries-the-key", z3.Implies(live, z3.And(0 <= b, b < n, ids.get(b).z == kz, nch(ids.get(b).z, n) == z3.Select(lens, kz))), "annotation")
+
+    R.add(
+        f"{CHK}:is_bifurcate",
+        prop="C18",
+        variants={"exclude_root=True": setup(True), "exclude_root=False": setup(False)},
+        requires=[("ids-distinct", pre_distinct), ("ids-are-not-the-marker", pre_marker), ("parents-exist", pre_parents)],
+        returns="bool",
+        lemmas=[rrow_axiom],
+        options=dict(hints={"post/true-iff-no-node-has-more-than-two-children": post_hint}),
+        ensures=[("true-iff-no-node-has-more-than-two-children", post)],
+        loops={
+            0: dict(invariant=[("children-sizes", inv0("sizes")), ("rows-listed", inv0("rows-listed")), ("listed-are-rows", inv0("listed-are-rows"))],
+                    types={"children": "intlist"}),
+            1: dict(invariant=[("no-overfull-node-so-far", inv1)]),
+        },
+    )
+
+
+_reg_2 = register
+
+
+def register(R):  # noqa: F811
+    _reg_2(R)
+    register_checker(R)
